@@ -640,4 +640,19 @@ def run(facts, rep, tier, ctx):
         k = table_u(facts, A, wa, "R09.1") + materialisation_rules(facts, A, wa) + resolver_rules(facts, A, wa) + \
             listing_rules(facts, A, wa) + c10.marker_rules(facts, A, wa, prefix="R09.5") + relative_join_rules(facts, A, wa)
         rep.floor("async overlay obligations", k, 55)
+    # R09.7 two compositions of the path type that the union's consistency rests on: remove_dir_all dispatches each child by its
+    # own type (remove_file on a directory that only a lower layer holds hides it with one marker and leaves its content to
+    # come back), and copy_file — the overlay's copy-up — creates its destination only once it holds the source (a failed
+    # copy-up of something that is not a file must not leave an empty file in the write layer that shadows it)
+    from ..pathrules import PathRules
+    from ..report import Report
+    for w7 in (ws, wa):
+        if not w7.present():
+            continue
+        scr7 = Report("p")
+        PathRules(facts, w7).table_p(scr7, "P")
+        for o in scr7.obligations:
+            d = o["key"].split("|")[2]
+            if d.startswith("remove_dir_all") or d.startswith("copy_file: destination created only after"):
+                rep.ob(("A/" if w7.asyncw else "") + "R09.7", o["fn"], d, o["ok"], o["detail"], o["loc"])
     rep.assume("layers behave as ordinary trees themselves (C01 applied to each layer)")
